@@ -25,14 +25,29 @@ def main():
     repo = Repo(inline=False)
     funcs = sorted(fi.qual for fi in repo.all_funcs())
     tables = sorted(shared_tables(repo))
+    from sa.unrename import shape_tokens, _use_profile
+    shapes = {fi.qual: shape_tokens(fi.node) for fi in repo.all_funcs()}
+    classes = sorted(c.qual for c in repo.all_classes())
+    class_shapes = {c.qual: shape_tokens(c.node) for c in repo.all_classes()}
+    attr_profiles = {}
+    for c in repo.all_classes():
+        names = {t.split(":", 1)[1].replace("self.", "") for t in tables if t.split(":", 1)[0] == c.qual}
+        attr_profiles[c.qual] = {n: _use_profile(repo, c, n, True) for n in sorted(names) if n.startswith("_") and not n.startswith("__")}
+    global_order = {m.name: list(m.assigns) for m in repo.modules.values()}
     out = {
-        "_doc": "functions and shared tables of the reference tree (see tools/gen_inventory.py)",
+        "_doc": "functions, classes and shared tables of the reference tree, with the anonymised shape of every definition "
+                "(used only to map renamed private names back and to tell which helpers / tables are new; see tools/gen_inventory.py)",
         "functions": funcs,
         "tables": tables,
+        "shapes": shapes,
+        "classes": classes,
+        "class_shapes": class_shapes,
+        "attr_profiles": attr_profiles,
+        "global_order": global_order,
     }
     p = os.path.join(os.path.dirname(os.path.dirname(os.path.abspath(__file__))), "sa", "inventory.json")
     with open(p, "w") as f:
-        json.dump(out, f, indent=0, sort_keys=True)
+        json.dump(out, f, sort_keys=True, separators=(",", ":"))
     print("%d functions, %d shared tables -> %s" % (len(funcs), len(tables), p))
 
 
